@@ -89,6 +89,15 @@ int swap_t(int i, int j) { int *p = &buf[i & 7]; int *q = &buf[j & 7]; fill(buf,
 int acc(int *p, int *q) { *p += *q; *q += *p; *p += *q; return *p; }
 int acc_t(int i, int j) { fill(buf, 8, 2); return acc(&buf[i & 7], &buf[j & 7]); }
 """),
+    ('wide_consts', """
+long long gw;
+long long w1(int k) { long long a = 9007199254740993LL; long long b = 10; if (k > 100) b = 7; return a % b; }
+unsigned long long w2(int k) { unsigned long long a = 0xFFFFFFFFFFFFFFC5ULL; unsigned long long b = 1000000007ULL; return a % b + (unsigned long long)k; }
+long long w3(int k) { long long a = -9007199254740993LL; long long b = 1000000007LL; gw = a % b; return gw / 3 + k; }
+unsigned long long w4(int k) { unsigned long long a = 0x8000000000000001ULL; return (a / 3ULL) % 1000003ULL + (a >> 7) + (unsigned long long)k; }
+long long w5(int k) { long long a = 4611686018427387907LL; long long c = a % 1000000009LL; int n = (int)a; return c * 3 + n + k; }
+long long w6(int k) { long long a = 9223372036854775807LL; long long b = a - 58; return (a % 97) + (b % 1000000007LL) + (a / 1000000007LL) + k; }
+"""),
     ('mixed_width', """
 unsigned char cb[8];
 short sb[4];
